@@ -23,7 +23,11 @@ RULE = ('Complete enumeration of (supported protocol version, state, '
         'table modules, minecraft/utility and ConnectionContext a '
         'scheduling point, all schedules with <= 1 preemption (login '
         'tables: 2, thorough 3; thorough: 14 cases): each thread gets the table it gets '
-        'alone, also afterwards.')
+        'alone, also afterwards.  First use: two threads build the reactor '
+        '(its id->class dict) of the same / of two versions in a FRESH FORK '
+        'of a process in which no reactor was ever built, one fork per '
+        'schedule, <= 1 preemption, 3 (5) cases: both get the table a '
+        'process gets that builds it alone, also afterwards.')
 ASSUMPTIONS = ['id tables are pure functions of the protocol version '
                '(checked: each table is built three times and compared)']
 
@@ -234,10 +238,86 @@ def run_races(ctx, ex):
         'points': 'every source line of ' + ', '.join(RACE_MODULES)}
 
 
+# -- two connections entering a state for the first time, concurrently ----------
+# Every execution is a fresh fork of a process in which no reactor was ever
+# built (explore(..., cold=True)); the reactor's own dict construction runs.
+
+COLD_MODULES = RACE_MODULES + ('minecraft.networking.connection:PacketReactor',)
+COLD_CASES = [(340, 340, 'play'), (757, 757, 'play'), (340, 757, 'play'),
+              (754, 754, 'login'), (47, 47, 'status')]
+
+
+def reactor_table(version, state):
+    from minecraft.networking.connection import ConnectionContext
+    r = reactor_for(state)(_Conn(ConnectionContext(protocol_version=version)))
+    return sorted((i, c.__name__) for i, c in r.clientbound_packets.items())
+
+
+def cold_expected(cases):
+    use_repo()
+    return [[reactor_table(a, st), reactor_table(b, st)]
+            for a, b, st in cases]
+
+
+def cold_body(W, params):
+    use_repo()
+    a, b, state = params['a'], params['b'], params['state']
+    want = [[tuple(e) for e in t] for t in params['expected']]
+    got = interleave.race(W, [lambda: reactor_table(a, state),
+                              lambda: reactor_table(b, state)])
+    after = [reactor_table(a, state), reactor_table(b, state)]
+    viol = []
+    for i, v in enumerate((a, b)):
+        g = got[i] if got[i][0] != 'ok' else ('ok', [tuple(e) for e in
+                                                     got[i][1]])
+        if g != ('ok', want[i]):
+            viol.append(('first reactor, concurrent v=%d %s' % (v, state),
+                         'protocol %d %s reactor built as the first of the '
+                         'process while another thread builds the one of '
+                         'protocol %d: %s' % (v, state, (a, b)[1 - i],
+                                              _diff(g, want[i]))))
+        if [tuple(e) for e in after[i]] != want[i]:
+            viol.append(('reactor after a concurrent first build v=%d %s'
+                         % (v, state),
+                         'protocol %d %s reactor built after two threads '
+                         'built the first ones concurrently: %s'
+                         % (v, state, _diff(('ok', [tuple(e) for e in
+                                                   after[i]]), want[i]))))
+    return {'outcome': (len(want[0]), len(want[1])), 'violations': viol}
+
+
+def cold_factory(params):
+    def scenario(prefix, expect, visited=None, budget=0):
+        return interleave.run(lambda W: cold_body(W, params), prefix, expect,
+                              budget, modules=COLD_MODULES, horizon=400000)
+    scenario.prepare = lambda: interleave.install(COLD_MODULES)
+    return scenario
+
+
+def run_cold(ctx, ex):
+    bound = 1
+    cases = COLD_CASES if ctx.thorough else COLD_CASES[:1] + COLD_CASES[3:]
+    expected = explore.in_child(cold_expected, cases)
+    execs = 0
+    for (a, b, state), exp in zip(cases, expected):
+        res = ex.explore(ctx, cold_factory,
+                         {'a': a, 'b': b, 'state': state, 'expected': exp},
+                         bound, label='cold ', cold=True)
+        execs += res.execs
+        ctx.cls('two reactors built concurrently in a fresh process')
+    ctx.extra['concurrent_first_use'] = {
+        'cases': [list(c) for c in cases], 'preemption_bound': bound,
+        'schedules_executed': execs,
+        'each_execution': 'a fresh fork of a process in which no reactor '
+                          'was ever built'}
+
+
 def run(ctx):
     use_repo()
+    import minecraft.networking.connection        # noqa: F401 (before the fork)
     ex = explore.Explorer(memo=False)   # forks its workers before anything runs
     try:
+        run_cold(ctx, ex)           # first: the parent is still cold too
         _run(ctx)
         # (tables that already depend on history would make schedules
         # irreproducible: the walk above has reported them)
@@ -332,8 +412,8 @@ def _run(ctx):
 
 def replay(ctx, case):
     if 'choices' in case:
-        x = race_factory(case['params'])(list(case['choices']), None, None,
-                                         'replay')
+        fac = cold_factory if 'expected' in case['params'] else race_factory
+        x = fac(case['params'])(list(case['choices']), None, None, 'replay')
         res = x.result or {}
         viol = list(res.get('violations', ()))
         if x.failure is not None:
